@@ -9,7 +9,17 @@
 //! (b)  handle level through a real `AudioManager<VBackend>`: for each covered command kind a
 //!      probe scene in which the command's effect is observable, bursts of 0-4 writes between
 //!      callbacks and before the first callback, checked against `callback_semantics`;
-//! (c)  a free-running stress with two real threads.
+//! (c)  a free-running stress with two real threads;
+//! (x)  the multi-kind layer (`Multi.v`) on real handles: every ordered pair / triple of distinct
+//!      commands of a static sound, a streaming sound, a sub-track, and of main track + sub-track +
+//!      sound together, issued in ONE interval and followed by quiet callbacks; random histories
+//!      over several intervals; in ten contexts, most of them NOT advancing (sound on a paused
+//!      track, on a sub-track of a paused track, paused itself, waiting for its start time, on a
+//!      track waiting to resume, played on an already paused track).  Compared with the model
+//!      (`CMulti`), with a Rust mirror of `multi_state_is_composition` / `playback_commands_table`,
+//!      with a twin run in which each kind gets its own `on_start_processing`, and by absolute
+//!      probes (relative seeks issued in different intervals add up; stop leaves Playing at the
+//!      next callback; the first command of a sound played on a paused track is not lost).
 use crate::util::*;
 use kira::command::{command_writer_and_reader, CommandReader, CommandWriter};
 use std::collections::BTreeSet;
@@ -439,6 +449,7 @@ pub fn run(args: &Args) {
 	if !unknown.is_empty() {
 		s.notes.push(format!("covered kinds no longer found by the grep (renamed?): {}", unknown.join(", ")));
 	}
+	s.notes.push("multi-kind layer (x): contexts MainFresh, Main, SelfPaused, SubFresh, Sub, SubPaused, ParentPaused, WaitStart, SubWaiting, PlayedOnPaused; static and streaming sounds, sub-track, main track; monitors X-model / X-mirror / X-twin / X-abs (see histogram x_*)".to_string());
 	*s.hist.entry("kinds_in_repo".into()).or_insert(0) += in_repo.len() as u64;
 	*s.hist.entry("kinds_covered_handle_level".into()).or_insert(0) += covered.iter().filter(|k| in_repo.contains(*k)).count() as u64;
 	s.finish();
@@ -1978,10 +1989,24 @@ fn part_x_abs(s: &mut Session) {
 		}
 	}
 	// a streaming sound's decoder-side kinds in ONE interval, both issue orders: seek_by then seek_to in
-	// the decoder's order, each once (the position is reported a ring of 16384 frames later)
+	// the decoder's order, each once (the position is reported a ring of 16384 frames later).  The
+	// decoder is a free-running thread: the probe waits until it has refilled the ring (its progress
+	// counter says so) and is skipped, not failed, if the machine is too busy for that.
 	for order in 0..2 {
 		let mut sc = StreamSc::new(0);
-		sc.settle();
+		let ring_full = |sc: &mut StreamSc, consumed: usize| -> bool {
+			let t0 = std::time::Instant::now();
+			loop {
+				sc.settle();
+				if sc.decoded.load(std::sync::atomic::Ordering::SeqCst) + 128 >= 16384 + consumed {
+					return true;
+				}
+				if t0.elapsed() > Duration::from_secs(4) {
+					return false;
+				}
+			}
+		};
+		let mut ok = ring_full(&mut sc, 0);
 		if order == 0 {
 			sc.h.seek_by(10.0);
 			sc.h.seek_to(30.0);
@@ -1989,9 +2014,13 @@ fn part_x_abs(s: &mut Session) {
 			sc.h.seek_to(30.0);
 			sc.h.seek_by(10.0);
 		}
-		for _ in 0..6 {
-			sc.settle();
+		for i in 0..6 {
 			sc.mgr.backend_mut().callback(4096, 2);
+			ok = ok && ring_full(&mut sc, 4096 * (i + 1));
+		}
+		if !ok {
+			s.count("x_abs_stream_seek_skipped_decoder_too_slow");
+			continue;
 		}
 		let p = sc.h.position();
 		s.eval_only("x_abs_stream_seek");
